@@ -6,11 +6,14 @@ Same line protocol as the Lean driver m_c19 (lean/Drivers/C19.lean): one request
   reset                         forget all containers (the interpreter and the runtime's module state stay!)
   use i                         select container slot i (several containers live side by side in one process)
   new KIND lo hi base U O N     create a container in the current slot; KIND in ARRAY LIST BAG SET; lo int; hi int or
-                                `?` (indeterminate upper bound); base = 0|1|2 (INTEGER STRING REAL) or A0 L1 B2 S0 …
-                                (ARRAY/LIST/BAG/SET OF that simple type); U,O = UNIQUE/OPTIONAL flags 0|1;
+                                `?` (indeterminate upper bound); base = 0|1|2 (INTEGER STRING REAL) or kind letters down to
+                                a simple type: A0, LS2 (LIST OF SET OF REAL), ALS2 …; U,O = UNIQUE/OPTIONAL flags 0|1;
                                 N = 1: the base type is passed *by name* with scope= (exercises Type.get_type)
   set i t v | get i | add t v   item assignment, item read, BAG/SET add; value = type t (as for base), payload v;
-                                for an aggregate type the payload is the identity of the inner aggregate object
+                                for an aggregate type the payload is the identity of the inner aggregate object; an element
+                                with an EVEN payload whose base type equals the base type of the container's declared
+                                element type is built over the declaration's own base-type object, all others over fresh
+                                (structurally equal) objects
   size hiindex loindex hibound lobound unique
 replies
   ok | val t v | unset | refused <ExceptionClass> | int n | indet | logical T|F|U | no-aggregate | bad-op
@@ -39,29 +42,42 @@ OBJECTS = {}        # (type token, payload) -> inner aggregate object, and id(ob
 
 
 def parse_ty(t):
-    """-> ('s', tag) | (kind letter, tag)"""
-    if t.isdigit():
-        if int(t) > 2:
+    """-> nested tuple: ('s', tag) | (kind letter, inner)"""
+    if len(t) > 6:
+        raise ValueError("type token")
+    if len(t) == 1:
+        if t not in "012":
             raise ValueError("type tag")
         return ("s", int(t))
-    if len(t) == 2 and t[0] in INNER and t[1] in "012":
-        return (t[0], int(t[1]))
+    if t[0] in INNER:
+        return (t[0], parse_ty(t[1:]))
     raise ValueError("type token")
 
 
+def build(ty):
+    return BASES[ty[1]] if ty[0] == "s" else INNER[ty[0]](build(ty[1]))
+
+
 def mk_type(t):
-    k, b = parse_ty(t)
-    return BASES[b] if k == "s" else INNER[k](BASES[b])
+    return build(parse_ty(t))
 
 
-def mk_val(t, v):
-    k, b = parse_ty(t)
-    if k != "s":
+def mk_val(t, v, declared=None):
+    """declared = (token, object) of the current container's element type"""
+    ty = parse_ty(t)
+    if ty[0] != "s":
         if (t, v) not in OBJECTS:
-            o = INNER[k](BASES[b])
+            inner_tok = t[1:]
+            if (declared and v % 2 == 0 and len(declared[0]) > 1 and declared[0][1:] == inner_tok
+                    and isinstance(declared[1], BaseTypeAggregate)):
+                base_obj = declared[1].get_type()          # the declaration's own base-type object (or class)
+            else:
+                base_obj = build(ty[1])
+            o = INNER[ty[0]](base_obj)
             OBJECTS[(t, v)] = o
             OBJECTS[id(o)] = (t, v)
         return OBJECTS[(t, v)]
+    b = ty[1]
     if b == 0:
         return INTEGER(v)
     if b == 1:
@@ -129,18 +145,19 @@ def handle(agg, w):
                 return None, "bad-op"
         except Exception as e:
             return None, refused(e)
+        agg._verif_declared = (base, None if byname else bt)
         return agg, "ok"
     if agg is None:
         return agg, "no-aggregate"
     indexed = isinstance(agg, (A.ARRAY, A.LIST))
     try:
         if op == "set" and len(w) == 4 and indexed:
-            agg[int(w[1])] = mk_val(w[2], int(w[3]))
+            agg[int(w[1])] = mk_val(w[2], int(w[3]), agg._verif_declared)
             return agg, "ok"
         if op == "get" and len(w) == 2 and indexed:
             return agg, show_val(agg[int(w[1])])
         if op == "add" and len(w) == 3 and not indexed:
-            agg.add(mk_val(w[1], int(w[2])))
+            agg.add(mk_val(w[1], int(w[2]), agg._verif_declared))
             return agg, "ok"
         if len(w) == 1:
             if op == "size":
